@@ -11,6 +11,7 @@ while IFS='|' read -r name patch rev prop pkgs expect; do
   name=$(echo $name); [ -z "$name" ] && continue; case "$name" in \#*) continue;; esac
   echo "$name" | grep -Eq "$filter" || continue
   patch=$(echo $patch); rev=$(echo $rev); prop=$(echo $prop); pkgs=$(echo $pkgs); expect=$(echo $expect)
+  if [ -n "$PROP_ONLY" ] && [ "$prop" != "$PROP_ONLY" ]; then continue; fi
   n=$((n+1))
   flag=""; [ "$rev" = "R" ] && flag="-R"
   if ! python3 tools/mkoverlay.py "$patch" /repo $flag > "$tmp/ov.json" 2>"$tmp/err"; then
@@ -24,7 +25,7 @@ while IFS='|' read -r name patch rev prop pkgs expect; do
   fi
 done < selftest/corpus.txt
 # toy programs: T1 must verify, T2 must fail its two named obligations
-if echo toy | grep -Eq "$filter"; then
+if [ -z "$PROP_ONLY" ] && echo toy | grep -Eq "$filter"; then
   bin/govc verify -prop T1 -repo /verif/selftest/toy -verif "$tmp" -pkgs . >"$tmp/t1" 2>&1 || { echo "FAIL toy T1"; tail -3 "$tmp/t1"; fail=1; }
   bin/govc verify -prop T2 -repo /verif/selftest/toy -verif "$tmp" -pkgs . -expect-fail 'SumFirst#index' >/dev/null 2>&1 || { echo "FAIL toy T2 SumFirst"; fail=1; }
   bin/govc verify -prop T2 -repo /verif/selftest/toy -verif "$tmp" -pkgs . -expect-fail 'AppendAlias#ensures' >/dev/null 2>&1 || { echo "FAIL toy T2 AppendAlias"; fail=1; }
